@@ -306,13 +306,15 @@ def shard(tier, seed, idx, n):
     for stack, servers in STACKS:
         for cfg in CFGS[:5]:
             for op in ("get_many", "gets_many", "set_many", "delete_many"):
-                for size in (1, 2, 3, 4):
-                    for pos in range(-1, size):
+                for size in (1, 2, 3, 4, 70, 130):
+                    for pos in (range(-1, size) if size <= 4 else (-1, 0, 63, 64, 65, size - 1)):
                         for bad in (bads if pos >= 0 else [None]):
                             work += 1
                             if work % n != idx:
                                 continue
-                            ks = list(goods[:size])
+                            ks = list(goods[:size]) if size <= 4 else ["g%d" % j for j in range(size)]
+                            if size > 4 and bad not in (None, b"a b", "k" * 251, b"\r\n"):
+                                continue
                             if pos >= 0:
                                 ks[pos] = bad
                             r = random.Random(seed * 41 + work)
